@@ -21,7 +21,8 @@ PARTIAL = ["purity (no mutation of arguments) is a heap fact: decided by deep sn
            "operations and exact inference, under the torch backend, each compared with the Lean model"]
 RULE = ("random BNs (C01 generators) with API call lists for purity, 2-8 query histories on shared engines (incl. virtual evidence and "
         "invalid queries) vs fresh engines, and renamed / state-permuted / insertion-shuffled presentations each compared with the model; "
-        "non-trivial = network with an edge; distinct = case JSON")
+        "non-trivial = network with an edge; distinct = case JSON"
+        " Also: sampling engines with a history vs fresh engines for the same seed.")
 ASSUMPTIONS = ["order of model.cpds is not part of a model's content (writers may reorder the list)"]
 BUDGET_QUICK = 90
 LEVEL_TEXT = ("Kernel-checked: the joint denotation is invariant under permutation of the factor list and of the summation order, renaming "
